@@ -52,9 +52,14 @@ func verifSpecString(label string, alphabet string, max int) string {
 	b := verifNondetBytes(label, n)
 	for i := range b {
 		verifAssume(verifIn(b[i], alphabet))
-		// at most two consecutive digits, so that ~n walks at most 22 parents (keeps the unwinding bound finite)
+		// at most two consecutive digits, or three when the first is a zero (zero-padded counts such as ~010), so
+		// that ~n walks at most 88 parents (keeps the unwinding bound finite)
 		if i >= 2 {
-			verifAssume(!verifAnd(verifAnd(verifIn(b[i], "0123456789"), verifIn(b[i-1], "0123456789")), verifIn(b[i-2], "0123456789")))
+			three := verifAnd(verifAnd(verifIn(b[i], "0123456789"), verifIn(b[i-1], "0123456789")), verifIn(b[i-2], "0123456789"))
+			verifAssume(verifOr(!three, b[i-2] == '0'))
+		}
+		if i >= 3 {
+			verifAssume(!verifAnd(verifAnd(verifIn(b[i], "0123456789"), verifIn(b[i-1], "0123456789")), verifAnd(verifIn(b[i-2], "0123456789"), verifIn(b[i-3], "0123456789"))))
 		}
 	}
 	return string(b)
@@ -62,11 +67,12 @@ func verifSpecString(label string, alphabet string, max int) string {
 
 // H-C44-ancestor: SplitAncestorSpec either fails or returns exactly the base name and the instruction list the
 // reference parser gives for the trimmed text: leading/trailing blanks never produce a different commit.
-// bounds: strings of <= verifBoundSpec bytes over {a ^ ~ 0 1 2 space}, at most two consecutive digits.
+// bounds: strings of <= verifBoundSpec bytes over {a ^ ~ 0 1 2 8 space}, at most two consecutive digits (three after a
+// leading zero).
 func verifH_C44_ancestor() {
 	verifPanicIsViolation()
-	verifUnwind(64)
-	s := verifSpecString("spec", "a^~012 ", verifBoundSpec)
+	verifUnwind(128)
+	s := verifSpecString("spec", "a^~0128 ", verifBoundSpec)
 	name, as, err := SplitAncestorSpec(s)
 	trimmed := verifTrim(s)
 	idx := len(trimmed)
